@@ -82,7 +82,7 @@ pub fn meta(prop: usize) -> Option<PropMeta> {
             &["Board::from_str", "BoardBuilder::from_str", "Board::try_from(&BoardBuilder)", "Game::from_str", "Board::is_sane", "MoveGen", "Board::status/make_move_new/legal"],
             &["text_accepted", "text_rejected", "builder_accepted", "builder_rejected"]),
         8 => m((2400, 3600), (48000, 72000),
-            "hash as travelling fingerprint (Update.hash_after, Snapshot.hash, journal records) recomputed by receivers on boards obtained by other paths; per arrival: incremental hash vs Board::from_str(own FEN), vs model standard FEN, vs BoardBuilder; std::hash::Hash vs ==; batch-wide key->hash table merged across workers. distinct = position key x arrival path; non-trivial = arrival not by plain incremental play",
+            "hash as travelling fingerprint (Update.hash_after, Snapshot.hash, journal records) recomputed by receivers on boards obtained by other paths; per arrival: incremental hash vs Board::from_str(own FEN), vs model standard FEN, vs BoardBuilder; std::hash::Hash vs ==; also vs the FEN that writes '-' where no enemy pawn stands beside the pushed pawn; batch-wide key->hash table merged across workers; supplementary fault-free runs (own index range) start before an edge-file double push with enemy pawns on the wrap-around squares. distinct = position key x arrival path; non-trivial = arrival not by plain incremental play",
             &["Board::get_hash", "impl Hash for Board", "Board::make_move(_new)", "Board::null_move", "Board::from_str", "BoardBuilder"],
             &["snapshot_installed", "replica_pairs_compared", "null_move_made", "position_obtained_by_setter", "position_obtained_by_rights_setter", "setter_no_op_edit"]),
         9 => m((800, 7200), (16000, 144000),
@@ -102,11 +102,11 @@ pub fn meta(prop: usize) -> Option<PropMeta> {
             &["ChessMove::from_san", "Game::make_move", "MoveGen"],
             &["san_all_spellings_positions", "san_no_match", "san_ambiguous", "san_malformed_text"]),
         13 => m((1800, 4200), (36000, 84000),
-            "coordinate text on the wire and in the journal: library rendering vs model formatter, parse-back identity, prefix rule and totality under corruption; B-RANDOM clients and DecodeUci ops draw uniformly from all 20480 values (coverage measured). distinct = text fingerprint; non-trivial = corrupted / noise text or a promotion",
+            "coordinate text on the wire and in the journal: library rendering vs model formatter, parse-back identity, prefix rule and totality under corruption; B-RANDOM clients and DecodeUci ops draw uniformly from all 20480 values (coverage measured); supplementary runs (own index range) write last-rank pawn steps the way GUIs, SAN and long algebraic notation spell promotions (e7e8=q, e7e8(Q), e7-e8q, e7xe8q, e7e8q+ ...). distinct = text fingerprint; non-trivial = corrupted / noise text or a promotion",
             &["impl Display for ChessMove / Square", "ChessMove::from_str", "Square::from_str"],
             &["uci_corrupted_decode"]),
         14 => m((9000, 0), (180000, 0),
-            "engine tasks issue seeded call programs on MoveGen (removals beforehand, 0-5 masks each iterated to exhaustion, len / size_hint probes at every step) against IterModel. distinct = (position key, removal?, number of masks); non-trivial = >=2 masks, a removal, or a promotion / en-passant entry present",
+            "engine tasks issue seeded call programs on MoveGen (removals beforehand, 0-5 masks each iterated to exhaustion, len / size_hint probes at every step) against IterModel; supplementary runs (own index range) start at a double push that uncovers a slider check beside an enemy pawn. distinct = (position key, removal?, number of masks); non-trivial = >=2 masks, a removal, or a promotion / en-passant entry present",
             &["MoveGen::{new_legal,set_iterator_mask,next,len,size_hint,remove_move,remove_mask}", "Board::make_move"],
             &["mask_exhausted", "generator_fully_exhausted", "len_probe_mid_iteration", "removed_en_passant_capture", "removed_promotion"]),
         17 => m((9000, 0), (180000, 0),
@@ -118,7 +118,7 @@ pub fn meta(prop: usize) -> Option<PropMeta> {
             &["Board::null_move", "Board::from_str", "Board::make_move"],
             &["null_in_check", "null_with_ep_state", "null_after_engine_moves"]),
         19 => m((15000, 0), (300000, 0),
-            "one table per client shared by 1-4 interleaved engine tasks, size per run 2^0..2^14, invalid sizes (E-BADSIZE), aliasing keys (E-ALIAS: same slot / 0 / u64::MAX / size / size-1), real position hashes; every get / add / replace_if against TableModel plus a read-back window after every write. distinct = (size, op, slot state, predicate); non-trivial = slot touched before or hit",
+            "one table per client shared by 1-4 interleaved engine tasks, size per run 2^0..2^14, invalid sizes (E-BADSIZE), aliasing keys (E-ALIAS: same slot / 0 / u64::MAX / size / size-1), real position hashes; every get / add / replace_if against TableModel plus a read-back window after every write; supplementary runs (own index range) add key pairs h, h +- k*size*c^-1 for eight well-known hash multipliers c (same slot and same multiplicative tag). distinct = (size, op, slot state, predicate); non-trivial = slot touched before or hit",
             &["CacheTable::{new,get,add,replace_if} with an 8-byte value type and, in lock-step, with a 32-byte value type", "Board::get_hash"],
             &["table_eviction", "get_same_slot_other_hash"]),
         _ => return None,
